@@ -55,6 +55,10 @@ package files
 //@ pred rdInv(r *Reader) := r != nil && r.size == len(rdData(r))
 //@    && ((rdIsFile(r) && bfInv(rdBF(r)) && !rdBF(r).closed) || (r.contents is *StringReadSeekCloser && (r.contents as *StringReadSeekCloser) != nil && rdSR(r) != nil))
 
+//@ func ReaderFromFile [C07 C06]
+//@   nopanic none
+//@   ensures inv: rdInv(result) && fresh(result) && rdIsFile(result) && rdData(result) == select(fs, filename) && result.offset == 0 && rdPos(result) == 0 && fs == old(fs)
+
 //@ func ReaderFromString [C07]
 //@   ensures inv: rdInv(result) && fresh(result) && rdData(result) == contents && result.offset == 0 && rdPos(result) == 0
 
